@@ -15,12 +15,19 @@ def gen_scenarios(rnd: random.Random, count):
         out.append({'nwk': nwk, 'fail_at': rnd.choice([0, 0, 0, nwk] + list(range(1, nwk + 1))),
                     'ab': rnd.choice([0, 3, 40, 40]), 'in_big': rnd.random() < 0.5, 'res_big': rnd.random() < 0.4,
                     'seq': rnd.random() < 0.3})
+        # every fourth scenario on AsyncServer: each cycle under an event loop of its own (asyncio.run twice on the SAME server
+        # object), with more concurrent calls than capacity so that requests wait for a slot.  (Small results only: the open
+        # finding D11b is about the sync and the async server alike.)
+        if len(out) % 4 == 0:
+            out[-1].update(flavour='async', res_big=False)
     return out
 
 
 def header(sc):
     # abstract units: a "big" input / result stream exceeds the pipe, a small one fits
     ab_units = 0 if sc['ab'] == 0 else (P_UNITS + 1 if (sc['in_big'] and sc['ab'] >= 40) else 1)
+    if sc.get('flavour') == 'async' and sc['ab']:
+        ab_units = 1       # capacity 6: at most 6 abandoned inputs are in flight, far below the pipe buffer
     return {'nwk': sc['nwk'], 'failAt': sc['fail_at'], 'ab': ab_units,
             'rs': P_UNITS + 1 if sc['res_big'] else 1}
 
@@ -51,6 +58,8 @@ def run_item(sc):
             time.sleep(0.05)
         return len(procs), len(ths), [p.name for p in procs] + [t.name for t in ths]
 
+    if sc.get('flavour') == 'async':
+        return _run_async(sc, ev, leftovers, in_size, res_size)
     hang = None
     for cycle in (1, 2):
         servlet = ProcessServlet(LW, cpus=sc['nwk'], fail_index=(sc['fail_at'] - 1 if cycle == 1 else -1),
@@ -122,6 +131,95 @@ def run_item(sc):
             except Exception:
                 pass
     return ev, hang
+
+
+def _run_async(sc, ev, leftovers, in_size, res_size):
+    """the same two cycles on ONE AsyncServer object, each cycle under its own event loop"""
+    import asyncio
+    import multiprocessing
+    from mpservice.mpserver import AsyncServer, ProcessServlet, SequentialServlet, ThreadServlet
+    from mpservice._common import TimeoutError as MpTimeout
+    from mbt.bind.lifecycle_workers import LW, InitFailure, Tail
+
+    box = {'server': None, 'hang': None, 'stop': False}
+
+    async def cycle_main(cycle):
+        if cycle == 1:
+            servlet = ProcessServlet(LW, cpus=sc['nwk'], fail_index=sc['fail_at'] - 1, res_size=res_size)
+            if sc['seq']:
+                servlet = SequentialServlet(servlet, ThreadServlet(Tail))
+            box['server'] = AsyncServer(servlet, capacity=6)
+        else:
+            servlet = box['server'].servlet
+            inner = servlet._servlets[0] if sc['seq'] else servlet
+            inner._init_kwargs['fail_index'] = -1
+        server = box['server']
+        try:
+            await server.__aenter__()
+        except InitFailure:
+            p, t, names = leftovers()
+            ev.append({'ev': 'EnterFailed', 'procs': p, 'threads': t})
+            if p or t:
+                ev[-1]['names'] = names
+            box['stop'] = True
+            return
+        except BaseException as e:  # noqa: BLE001
+            ev.append({'ev': 'EnterError', 'exc': repr(e)[:200]})
+            box['stop'] = True
+            return
+        inner_now = server.servlet._servlets[0] if sc['seq'] else server.servlet
+        ev.append({'ev': 'Entered', 'alive': sum(1 for w in inner_now.workers if w.is_alive())})
+        try:
+            await server.call(b'a' * 10, timeout=20)
+            try:
+                await server.call(('fail', 1), timeout=20)
+            except ValueError:
+                pass
+            try:
+                await server.call(('slow', 1), timeout=0.05)
+            except MpTimeout:
+                pass
+            # more concurrent requests than capacity: some wait for a slot
+            got = await asyncio.gather(*(server.call(b'c' * 10, timeout=20, backpressure=False) for _ in range(14)))
+            assert len(got) == 14
+            if sc['ab']:
+                async def inputs():
+                    for _ in range(sc['ab']):
+                        yield b'i' * in_size
+                it = server.stream(inputs(), timeout=30)
+                await it.__anext__()
+                await it.aclose()
+        except BaseException as e:  # noqa: BLE001
+            ev.append({'ev': 'WorkloadError', 'exc': repr(e)[:200]})
+        try:
+            await asyncio.wait_for(server.__aexit__(None, None, None), 30.0)
+        except asyncio.TimeoutError:
+            box['hang'] = {'cycle': cycle, 'backlog': server.backlog}
+            ev.append({'ev': 'Hang'})
+            box['stop'] = True
+            return
+        except BaseException as e:  # noqa: BLE001
+            ev.append({'ev': 'ExitError', 'exc': repr(e)[:200]})
+            box['stop'] = True
+            return
+        p, t, names = leftovers()
+        ev.append({'ev': 'Exited', 'procs': p, 'threads': t, 'backlog': server.backlog, 'single': sc['nwk'] == 1})
+        if p or t:
+            ev[-1]['names'] = names
+        if cycle == 1:
+            ev.append({'ev': 'Reenter'})
+
+    for cycle in (1, 2):
+        asyncio.run(cycle_main(cycle))
+        if box['stop']:
+            break
+    if box['hang']:
+        for pr in multiprocessing.active_children():
+            try:
+                pr.kill()
+            except Exception:  # noqa: BLE001
+                pass
+    return ev, box['hang']
 
 
 def run_job(job):
